@@ -308,8 +308,10 @@ def onStateChange (p : Peer) (next : Next) (graceful : Bool) (purgeReason : Bool
 
 /-! ### handleFSMMessage, UPDATE / End-of-RIB (server.go) -/
 
+/-- `AdjRib.Update`: the Adj-RIB-In has a table per CONFIGURED family only (`NewAdjRib(rfList)`); a path
+of any other family is skipped (`t := adj.table[rf]; if t == nil { continue }`) -/
 def onAnnounce (p : Peer) (fam key ver : Nat) (noLL : Bool) (nLL : Nat) : Peer :=
-  if !p.est then p else { p with rib := announce p.rib fam key ver noLL nLL }
+  if !p.est || !(famIds p).contains fam then p else { p with rib := announce p.rib fam key ver noLL nLL }
 
 def onWithdraw (p : Peer) (fam key : Nat) : Peer :=
   if !p.est then p else { p with rib := withdraw p.rib fam key }
@@ -376,21 +378,26 @@ deriving Repr, DecidableEq, Inhabited
 
 /-- earliest pending timer with deadline ≤ `limit`; ties: LLGR timers (in creation order), then
 deferral, then the restart timer -/
+def minStep (proj : Nat × Nat → Nat) (acc : Option (Nat × Nat)) (x : Nat × Nat) : Option (Nat × Nat) :=
+  match acc with
+  | none => some x
+  | some y => if proj x < proj y then some x else some y
+
 def minBy (l : List (Nat × Nat)) (proj : Nat × Nat → Nat) : Option (Nat × Nat) :=
-  l.foldl (fun acc x => match acc with
-    | none => some x
-    | some y => if proj x < proj y then some x else some y) none
+  l.foldl (minStep proj) none
+
+/-- the earlier of two candidates, the first one on a tie -/
+def pickDue (a b : Option (Nat × Due)) : Option (Nat × Due) :=
+  match a, b with
+  | none, b => b
+  | a, none => a
+  | some x, some y => if y.1 < x.1 then some y else some x
 
 def nextDue (p : Peer) (limit : Nat) : Option (Nat × Due) :=
   let c1 : Option (Nat × Due) := (minBy p.llTimers (·.2)).map (fun t => (t.2, Due.ll t.1))
   let c2 : Option (Nat × Due) := (minBy p.defTimers (·.1)).map (fun t => (t.1, Due.defer t.2))
   let c3 : Option (Nat × Due) := p.restartAt.map (fun d => (d, Due.restart))
-  let pick (a b : Option (Nat × Due)) : Option (Nat × Due) :=
-    match a, b with
-    | none, b => b
-    | a, none => a
-    | some x, some y => if y.1 < x.1 then some y else some x
-  match pick (pick c1 c2) c3 with
+  match pickDue (pickDue c1 c2) c3 with
   | some (d, k) => if d ≤ limit then some (d, k) else none
   | none => none
 
